@@ -1,5 +1,7 @@
 """Per-operation watchdog: turns non-termination of the code under test into an
-exception the harness can report (SIGALRM, main thread of each worker)."""
+exception the harness can report.  The budget is CPU time of this process
+(ITIMER_VIRTUAL / SIGVTALRM), not wall time: a busy machine must never turn
+into a false "did not terminate" alarm."""
 import contextlib
 import signal
 
@@ -9,7 +11,7 @@ class Hang(BaseException):
 
 
 def _handler(signum, frame):
-    raise Hang('operation did not terminate within its time budget')
+    raise Hang('operation did not terminate within its CPU-time budget')
 
 
 _armed = False
@@ -18,15 +20,15 @@ _armed = False
 def arm():
     global _armed
     if not _armed:
-        signal.signal(signal.SIGALRM, _handler)
+        signal.signal(signal.SIGVTALRM, _handler)
         _armed = True
 
 
 @contextlib.contextmanager
 def limit(seconds=5.0):
     arm()
-    signal.setitimer(signal.ITIMER_REAL, seconds)
+    signal.setitimer(signal.ITIMER_VIRTUAL, seconds)
     try:
         yield
     finally:
-        signal.setitimer(signal.ITIMER_REAL, 0)
+        signal.setitimer(signal.ITIMER_VIRTUAL, 0)
